@@ -37,9 +37,13 @@
                       neighbouring bin's line may be evaluated (bin edges are decided on
                       log(E), see F-GRID-1), B_k bounds |slope| * u_k / M_k.
      extrapolation    reference * (1 -/+ 64 eps)      [oracle-decided reference]
-     round trip       E -/+ (16 eps E + 16 ulp(r) * local dE/dr  [+ 64 eps E below the table])
+     round trip       E -/+ (16 eps E + 16 ulp(r) * local dE/dr  [+ 64 eps E below the table]
+                             [+ (range bracket of knot k) * dE/dr if E is near knot k]
+                             [+ 128 ulp(r_k) * dE/dr if range(E) is near the tabulated r_k])
+     neighbourhood    "near knot k" = within 128 ulp of x_k (ranks of x_k -/+ 128 ulp supplied)
    Nothing else is tolerated: inside a bin the value must lie between the neighbouring knot
-   brackets, clamps are exact (rank equality), monotonicity is a pure rank statement.
+   brackets, clamps are exact (rank equality), monotonicity is a pure rank statement between
+   queries away from knots (see MonoPair).
 
    Known finding F-GRID-1 (UniformGrid::find off by one bin within 1 ulp of a knot) does
    not affect these claims: they are about VALUES, and continuity makes the neighbouring
@@ -88,7 +92,7 @@ Relations(calc, n, p, c, k) ==
           [] c = "up" \/ c = "dn" ->
                {"Continuity"} \cup (IF ScaledKnot(p, k) THEN {"ContinuityScaled"} ELSE {})
           [] c = "in" ->
-               {"Between"} \cup (IF ScaledBin(p, k) THEN {"BetweenScaled"} ELSE {})
+               {"Between", "NearKnot"} \cup (IF ScaledBin(p, k) THEN {"BetweenScaled"} ELSE {})
           [] c = "below" ->
                IF xsl THEN (IF p = 0 THEN {"ScaledClampFirst", "ExtrapRef"} ELSE {"ClampFirst"})
                ELSE IF calc = "generic" THEN {"ClampFirst"}
@@ -104,9 +108,15 @@ Lo2(a, b) == IF a < b THEN a ELSE b
 Hi2(a, b) == IF a < b THEN b ELSE a
 Within(v, lo, hi) == lo <= v /\ v <= hi
 
+\* q lies within 128 ulp of knot k (t.xnl/xnh: ranks of x_k -/+ 128 ulp(x_k))
+Near(t, q, k) == t.xnl[K1(k)] <= q.x /\ q.x <= t.xnh[K1(k)]
+NearAny(t, q) == \E k \in 0..(t.n - 1) : Near(t, q, k)
+
 Holds(name, t, q) ==
   LET k == q.k  n == t.n IN
   CASE name = "Finite" -> q.fin
+    [] name = "NearKnot" ->      \* an inside query within 128 ulp of a knot: continuity bracket
+         q.fin => \A kk \in {k, k + 1} : Near(t, q, kk) => Within(q.v, t.ylo[K1(kk)], t.yhi[K1(kk)])
     [] name = "NonNeg" -> q.fin => q.v >= t.zero
     [] name \in {"KnotValue", "Continuity"} ->
          q.fin => Within(q.v, t.ylo[K1(k)], t.yhi[K1(k)])
@@ -124,6 +134,27 @@ Holds(name, t, q) ==
     [] name = "ScaledClampLast" -> q.fin => Within(q.ve, t.slo[n], t.shi[n])
     [] name = "ExtrapRef" -> q.ref /\ (q.fin => Within(q.v, q.rlo, q.rhi))
     [] name = "BelowFirst" -> q.fin => q.v <= t.yhi[1]
+
+\* ---- named deviation (counted by the trace spec, never hidden) ---------------------
+\* F-XS-1: a query within 128 ulp of a knot whose tabulated value is zero (or within rounding
+\* distance of zero relative to its neighbours: ylo_k < 0) gets a NEGATIVE value that is still
+\* inside that knot's bracket -- the neighbouring bin's line is evaluated a few ulp beyond its
+\* end point (bin edges are decided on log(E), F-GRID-1) or the fma rounds below zero.
+\* Anything else negative is a violation of NonNeg.
+NegativeNearKnot(t, q) ==
+  /\ q.fin /\ q.v < t.zero
+  /\ \E k \in 0..(t.n - 1) : /\ Near(t, q, k)
+                              /\ t.ylo[K1(k)] < t.zero
+                              /\ t.ylo[K1(k)] <= q.v
+
+\* F-GRID-1a (consequence of F-GRID-1): for a query within 128 ulp of the last knot the real
+\* UniformGrid::find(log E) returns the LAST index (q.pe, observed by the harness on the real
+\* class); XsCalculator / RangeCalculator then interpolate towards value[size], one element
+\* past the table.  The returned value depends on foreign data, so no clause can be asserted
+\* for it; such queries are counted, and excluded from the monotonicity / round-trip clauses.
+ReadPastEnd(t, q) ==
+  /\ t.calc \in {"xs", "eloss", "range"}
+  /\ q.pe /\ Near(t, q, t.n - 1)
 
 \* ---- is the query really a member of the class it is labelled with? --------------
 \* (xd, xu: ranks of the doubles just below / above the query -- floating-point facts)
@@ -143,20 +174,41 @@ ClassOK(t, q) ==
 
 \* ---- table-level relations ---------------------------------------------------------
 TableMonotone(t) == \A i \in 1..(t.n - 1) : t.yk[i] <= t.yk[i + 1]
-\* pure rank statement over ALL queries of one table
-Monotone(qs) == \A i, j \in DOMAIN qs :
-                   (qs[i].fin /\ qs[j].fin /\ qs[i].x <= qs[j].x) => qs[i].v <= qs[j].v
-\* the pairs that break it (for reports)
-MonotoneBreaks(qs) == {<<i, j>> \in (DOMAIN qs) \X (DOMAIN qs) :
-                         qs[i].fin /\ qs[j].fin /\ qs[i].x <= qs[j].x /\ qs[i].v > qs[j].v}
+\* Monotone non-decreasing over ALL queries of one table sorted by abscissa.  A pure rank
+\* statement (x_i <= x_j => v_i <= v_j) between queries that are not within 128 ulp of a knot;
+\* a query near knot k is tied to that knot's bracket instead: everything to its right is
+\* >= ylo_k, everything to its left is <= yhi_k (near a knot either neighbouring line may be
+\* evaluated and each evaluation carries the rounding of the interpolation).
+MonoPair(t, a, b) ==       \* a.x <= b.x
+  IF NearAny(t, a) \/ NearAny(t, b)
+  THEN /\ \A k \in 0..(t.n - 1) : Near(t, a, k) => b.v >= t.ylo[K1(k)]
+       /\ \A k \in 0..(t.n - 1) : Near(t, b, k) => a.v <= t.yhi[K1(k)]
+  ELSE a.v <= b.v
+\* pairs that break the pure rank statement (informational when all are near a knot)
+StrictBreaks(t) == {<<i, j>> \in (DOMAIN t.qs) \X (DOMAIN t.qs) :
+                      /\ t.qs[i].v > t.qs[j].v /\ t.qs[i].x <= t.qs[j].x
+                      /\ t.qs[i].fin /\ t.qs[j].fin /\ ~t.qs[i].pe /\ ~t.qs[j].pe}
+\* (a pair with v_i <= v_j satisfies MonoPair as soon as both values obey their own knot
+\* brackets, which the per-query clauses check: only strict breaks need a second look)
+MonotoneBreaks(t) == {b \in StrictBreaks(t) : ~MonoPair(t, t.qs[b[1]], t.qs[b[2]])}
 \* inverse(range(E)) within the supplied bracket of E
-RoundTrip(c) == c.fin /\ Within(c.v, c.lo, c.hi)
+RoundTrip(c) == c.pe \/ (c.fin /\ Within(c.v, c.lo, c.hi))
 
 \* ---- continuous energy loss (calc_mean_energy_loss) ----------------------------------
-\* r: record with E (pre-step energy), zero, range, steps = <<[s |-> step, l |-> loss, fin]>>
+\* r: record with E (pre-step energy), zero, range, steps = sweep of
+\*    [s |-> step, l |-> loss, lhi |-> l + 32 eps E, lin |-> linear regime?, fin]
+\* Two documented regimes (PhysicsStepUtils.hh): step * dE/dx < linear_loss_limit * E: the
+\* linear approximation; otherwise E - E(range - step), where the difference of two energies
+\* carries an ABSOLUTE rounding error of a few eps * E: monotonicity is therefore stated up
+\* to the bracket lhi = l + 32 eps E (tolerance table: C_LOSS = 32).
 LossBounds(r, st) == st.fin /\ r.zero <= st.l /\ st.l <= r.E
 LossAtRange(r, st) == (st.s = r.range) => st.l = r.E          \* token equality
-LossMonotone(steps) == \A i, j \in DOMAIN steps : steps[i].s <= steps[j].s => steps[i].l <= steps[j].l
+LossPairOK(a, b) == a.s <= b.s => a.l <= b.lhi
+\* Named deviation F-LOSS-1: across the hand-over from the linear regime to the range regime
+\* the loss can DROP (the linear approximation overestimates when dE/dx grows with E).
+LossSwitchDrop(a, b) == a.lin /\ ~b.lin /\ a.s <= b.s /\ a.l > b.lhi
+LossBreaks(steps) == {c \in (DOMAIN steps) \X (DOMAIN steps) :
+                        steps[c[1]].fin /\ steps[c[2]].fin /\ ~LossPairOK(steps[c[1]], steps[c[2]])}
 
 \* ---- MSC path conversions ---------------------------------------------------------------
 \* true path t, geometrical path g = ToGeo(t), back = FromGeo(g); and for a shorter
